@@ -52,6 +52,19 @@ Example C01_ex2 : zxy_to_id 31 (2^31-1) (2^31-1) = base 31 + 2 * 4^30 + (4^30 - 
                   /\ base 32 = 6148914691236517205.
 Proof. split; vm_compute; reflexivity. Qed.
 
+(* corollaries: no two valid tiles share an ID, and no two IDs below base 32 name the same tile *)
+Theorem C01_zxy_id_injective : forall z x y z' x' y', z <= 31 -> x < 2^z -> y < 2^z -> z' <= 31 -> x' < 2^z' -> y' < 2^z' ->
+  zxy_to_id z x y = zxy_to_id z' x' y' -> (z, x, y) = (z', x', y').
+Proof.
+  intros z x y z' x' y' Hz Hx Hy Hz' Hx' Hy' E.
+  rewrite <- (HilTop.C01_zxy_id_roundtrip z x y Hz Hx Hy), <- (HilTop.C01_zxy_id_roundtrip z' x' y' Hz' Hx' Hy'), E. reflexivity.
+Qed.
+Theorem C01_id_zxy_injective : forall i j, i < base 32 -> j < base 32 -> id_to_zxy i = id_to_zxy j -> i = j.
+Proof.
+  intros i j Hi Hj E. pose proof (HilTop.C01_id_zxy_roundtrip i Hi) as A. pose proof (HilTop.C01_id_zxy_roundtrip j Hj) as B.
+  rewrite E in A. destruct (id_to_zxy j) as [[z x] y]. destruct A as (_ & _ & _ & A). destruct B as (_ & _ & _ & B). congruence.
+Qed.
+
 Print Assumptions C01_zxy_id_roundtrip.
 Print Assumptions C01_id_zxy_roundtrip.
 Print Assumptions C01_numbering.
@@ -62,3 +75,5 @@ Print Assumptions C01_block.
 Print Assumptions C01_start.
 Print Assumptions C01_adjacent.
 Print Assumptions C01_parent.
+Print Assumptions C01_zxy_id_injective.
+Print Assumptions C01_id_zxy_injective.
